@@ -429,6 +429,7 @@ fn filter(u: &mut U) -> c04::Filter {
 /// Decode the case of property `id` from fuzzer bytes and judge it. `None` = property not served by this target.
 pub fn run(id: &str, data: &[u8]) -> Option<Outcome> {
     crate::util::install_panic_hook();
+    crate::oracle::install_logger();
     let mut u = U::new(data);
     let u = &mut u;
     let out = |section: &'static str, case: Json, result: CheckResult| Some(Outcome { section, case, result });
